@@ -1199,11 +1199,41 @@ def class_scenarios(rng, count):
 
 # ---------------------------------------------------------------------------------------------------
 # C18: iterables of every kind x adapter chains x consumers x loop exits
-def iteration_scenarios(rng, count):
+class _ForcedChoices:
+    """a random source whose choice of iterable and of consumer is fixed (the exhaustive part of the iteration product)"""
+    def __init__(self, base, sources, src, consumer):
+        self.base, self.sources, self.src, self.consumer = base, sources, src, consumer
+
+    def random(self):
+        return 0.9            # not wrapped in a function
+
+    def choice(self, seq):
+        if seq is self.sources:
+            return self.src
+        if "for-continue" in seq:
+            return self.consumer
+        return self.base.choice(seq)
+
+    def randint(self, a, b):
+        return 0 if (a, b) == (0, 3) else self.base.randint(a, b)
+
+
+ITER_CONSUMERS = ["for", "for-break", "for-continue", "for-return", "collect", "reduce", "nested", "interleaved", "mutate", "manual-next", "range-held"]
+
+
+def iteration_scenarios(rng, count, exhaustive=True):
     out = []
     sources = ["vec0", "vec1", "vec3", "tuple0", "tuple2", "range-up", "range-down", "range-empty", "user", "user-early", "user-derived",
                "iter-of-vec", "nested-vec", "user-derived-fresh", "user-derived-fresh", "user-resetting", "user-resetting", "next-only", "next-field", "next-field", "iter-field"]
-    for k in range(count):
+    plans = []
+    if exhaustive:
+        # every iterable kind under every consumer (no adapters): break / continue / return / nested / interleaved loops must behave the
+        # same whether iter() is the identity, hands out a fresh cursor, rewinds, or does not exist on the cursor
+        for s_ in sorted(set(sources)):
+            for c_ in ITER_CONSUMERS:
+                plans.append(_ForcedChoices(rng, sources, s_, c_))
+    plans += [rng] * count
+    for k, r in enumerate(plans):
         b = Builder()
         # user-defined iterables
         b.class_("Count", ctor="new")
@@ -1242,10 +1272,10 @@ def iteration_scenarios(rng, count):
         b.class_("Holder", sup="Iter", ctor="new")
         b.method("next", []); b.ret(inv(b.v("StopIter"), "new")); b.end()          # shadowed by the field in "next-field"
         b.end()
-        wrap_fn = rng.random() < 0.5
+        wrap_fn = r.random() < 0.5
         if wrap_fn:
             b.fn("run", [])
-        src = rng.choice(sources)
+        src = r.choice(sources)
         if src in ("next-field", "iter-field"):
             b.var("holder", inv(b.v("Holder"), "new"))
             b.var("backing", inv(vec(lit(7), lit(8), lit(9)), "iter"))
@@ -1277,7 +1307,7 @@ def iteration_scenarios(rng, count):
         numeric = src in ("vec3", "range-up", "range-down", "range-empty", "user", "user-early", "user-derived", "iter-of-vec", "user-derived-fresh",
                           "user-resetting", "next-only", "next-field", "iter-field")
         chainable = src not in ("user", "user-early")        # plain user classes do not derive Iter
-        nchain = rng.randint(0, 3) if chainable else 0
+        nchain = r.randint(0, 3) if chainable else 0
         e = b.v("src")
         if src == "next-only":
             # wrapped directly by the adapter classes (Iter.map / Iter.filter would call iter() on it, which it inherits from Iter)
@@ -1285,7 +1315,7 @@ def iteration_scenarios(rng, count):
         if nchain and src not in ("user-derived", "iter-of-vec", "user-derived-fresh", "user-resetting", "next-only", "next-field", "iter-field"):
             e = inv(e, "iter")
         for c in range(nchain):
-            which = rng.choice(["map", "filter", "map-id", "filter"])
+            which = r.choice(["map", "filter", "map-id", "filter"])
             if src == "next-only" and c == 0:
                 if which == "filter":
                     e = inv(b.v("FilterIter"), "new", e, b.lam(["x"], lambda: bin_("!=", b.v("x"), lit(2))))
@@ -1298,7 +1328,7 @@ def iteration_scenarios(rng, count):
                 e = inv(e, "map", b.lam(["x"], lambda: b.v("x")))
             else:
                 e = inv(e, "filter", b.lam(["x"], lambda: (bin_("!=", b.v("x"), lit(2 + 2 * c)) if numeric else lit(c % 2 == 0))))
-        consumer = rng.choice(["for", "for", "for-break", "for-continue", "for-return", "collect", "reduce", "nested", "interleaved", "mutate", "manual-next",
+        consumer = r.choice(["for", "for", "for-break", "for-continue", "for-return", "collect", "reduce", "nested", "interleaved", "mutate", "manual-next",
                                "range-held"])
         if consumer in ("collect", "reduce") and not (nchain or src in ("user-derived", "iter-of-vec", "user-derived-fresh", "user-resetting", "next-field", "iter-field")):
             consumer = "for"
@@ -1320,10 +1350,10 @@ def iteration_scenarios(rng, count):
             b.var("it", inv(e, "iter")); b.for_("a", b.v("it")); b.for_("c", b.v("it")); b.print(tup(b.v("a"), b.v("c"))); b.end(); b.end(); b.print(inv(b.v("it"), "next"))
         elif consumer == "mutate":
             # the vector changes length while it is being iterated: pops that move the length below, onto and past the cursor
-            n0 = rng.randint(1, 5)
+            n0 = r.randint(1, 5)
             b.var("w", vec(*[lit(i + 1) for i in range(n0)])); b.var("n", lit(0)); b.var("guard", lit(0))
-            mode = rng.choice(["push-once", "pop-once", "pop-each", "pop-two-once", "pop-three-once", "push-each-bounded", "pop-at-last", "clear-by-pops"])
-            at = rng.randint(1, n0)
+            mode = r.choice(["push-once", "pop-once", "pop-each", "pop-two-once", "pop-three-once", "push-each-bounded", "pop-at-last", "clear-by-pops"])
+            at = r.randint(1, n0)
             b.for_("v", b.v("w")); b.expr(b.assign("n", bin_("+", b.v("n"), lit(1))))
             if mode in ("push-once", "pop-once", "pop-two-once", "pop-three-once", "clear-by-pops"):
                 b.if_(bin_("==", b.v("n"), lit(at)))
